@@ -251,7 +251,10 @@ carquet_status_t carquet_delta_strings_encode(
     }
 
     /* Encode prefix lengths */
-    size_t delta_capacity = (size_t)num_values * 10 + 100;
+    /* Worst case of DELTA_BINARY_PACKED: the 40 bytes the header check asks for,
+     * then for every started block of 128 values a 10-byte min delta, 4 bit
+     * widths and 128 deltas of up to 64 bits. */
+    size_t delta_capacity = 40 + (((size_t)num_values + 127) / 128) * (10 + 4 + 128 * 8);
     uint8_t* delta_buffer = malloc(delta_capacity);
     if (!delta_buffer) {
         free(prefix_lengths);
